@@ -8,14 +8,16 @@ grammar.  A witness is attributed to its mechanism by the kinds of the two items
   literal/within-word     literal_text_accepted_by_subword_item
 Part 2 (execution): the script of the `||` grammar against the script of its `|` variant in real
 bash on the same command lines: the same lines are matched (exit status), every candidate of the
-`||` script is a candidate of the `|` script, and the `||` script offers something whenever the `|`
-script does.  A difference is attributed to the mechanism Part 1 found in either automaton (or to
+`||` script is a candidate of the `|` script, the `||` script offers something whenever the `|`
+script does, and every candidate of the `|` script that the `||` script does not offer is one that the
+extracted Spec/Undercut.v lists as undercut by a strictly earlier level (Props/C09c.v proves exactly
+this at the level of the specification and, through C01, of the script).  A difference is attributed to the mechanism Part 1 found in either automaton (or to
 the same-text mechanism inside a within-word automaton); anything else is a violation."""
 import os
 import time
 from concurrent.futures import ThreadPoolExecutor
 
-from .. import bashrun, build, gen, impl, model, mspec, paths, report, sexp
+from .. import bashrun, build, coqcheck, gen, impl, model, mspec, paths, report, sexp
 
 MANIFEST = dict(
     text=('Spec/Ambig.v: `unambiguous d` (no state with two outgoing literal/within-word items that read a common word and differ '
@@ -27,11 +29,15 @@ MANIFEST = dict(
           'the same command lines), '
           'C09_unambiguous (outside the known mechanisms), C09_fallback_transparent_spec (for the specification Spec/Meaning.v and '
           'the model of the level pass, replacing every || by | changes neither the matched lines nor, up to levels, the expected '
-          'items), C09_candidates_monotone_partial. The transparency/monotonicity statements for the compiled automaton and the '
-          'script are only stated. The implementation is decided directly: extracted Ambig.find on Rust\'s minimised '
+          'items), C09_candidates_monotone_partial; Props/C09c.v: C09_fallback_transparent_complete and C09_candidates_monotone_spec '
+          '(every required/allowed candidate of the | variant at a cursor position is one of the || grammar unless Spec/Undercut.v '
+          'lists it as undercut by a strictly earlier level, on both tiers: || branches and pieces inside a word), '
+          'C09_undercut_meaning, and C09_candidates_monotone_script (the same for run_from Repaired on the tables of the two '
+          'grammars, by transfer through C01_bash_meaning_mixed). The implementation is decided directly: extracted Ambig.find on Rust\'s minimised '
           'automaton of every generated grammar (biased to || branches and call variants starting with the same literal, within-word '
           'expressions repeated with permuted alternatives or through definitions), and the || script against the | script in real '
-          'bash (same matched lines, candidates monotone).'),
+          'bash (same matched lines, candidates monotone in both directions with the undercut exception computed by the extracted '
+          'specification).'),
     design='6 C09',
     technique='Coq-proved decision procedure run on the implementation\'s automaton + differential execution of || vs | scripts in real bash')
 
@@ -182,16 +188,29 @@ def nontrivial_dfa(dfa_sx):
     return False
 
 
+def undercut_request(expr_text, outs, wb, queries):
+    """Spec/Undercut.v (extracted): per query, the candidates of the || grammar withheld because a strictly earlier level
+    has a candidate extending the prefix"""
+    return 'undercut %s %s %s %s' % (expr_text, sexp.quote(wb), mspec.env_sx(outs), mspec.q_sx(queries))
+
+
 def run(ctx, res):
     with build.Lock():
         exe = build.harness()
+        # the second half of the property as theorems (specification level and script level): Props/C09c.v
+        extra = coqcheck.check_property('C09c')
+    if not extra['ok']:
+        res.violations.append(report.Violation('proof obligations of C09c (candidates monotone, || transparent at the cursor) no longer check',
+                                               dict(kind='proof-obligation', errors=extra['errors'][:5]), found_input=False))
+    res.extra['theorems_C09c'] = extra['theorems']
     rng = ctx['rng']
     quick = ctx['tier'] == 'quick'
     budget = float(os.environ.get('VERIF_C09_BUDGET', 110 if quick else 1200))
     n_dec = 1000 if quick else 40000
     t0 = time.time()
     counters = dict(grammars=0, rejected=0, decided_none=0, decided_some=0, model_error=0, bash_grammars=0, bash_pairs=0,
-                    skipped_c01_mechanism=0, skipped_ambiguous=0, unreferenced_subdfa=0, bar_variant_rejected=0)
+                    skipped_c01_mechanism=0, skipped_ambiguous=0, unreferenced_subdfa=0, bar_variant_rejected=0,
+                    bar_candidates_judged=0, bar_candidates_undercut=0, undercut_skipped_greedy_shadow=0, spec_monotone_checked=0)
     found = {CLASS_LL: 0, CLASS_SS: 0, CLASS_LS: 0}
     # ---- Part 1: the decision on Rust's automaton
     witnesses = [
@@ -299,6 +318,9 @@ def run(ctx, res):
         fl = model.run([mspec.meaning_request(e[k], cases[p[0]][1].outs, mspec.DEFAULT_WB, q)
                         for p, e, q in zip(prep, exprs, queries) for k in (0, 1)])
 
+        # the exception of the second half, computed by the extracted specification on the || grammar's validated tree
+        ul = model.run([undercut_request(e[0], cases[p[0]][1].outs, mspec.DEFAULT_WB, q) for p, e, q in zip(prep, exprs, queries)])
+
         def work(j):
             (i, bt, a, b), q = j
             r1, _ = bashrun.run_queries(str(sexp.parse(a['SCRIPT'])), q, timeout=600)
@@ -311,6 +333,7 @@ def run(ctx, res):
             f1 = mspec.parse_meaning(fl[2 * n]) if not fl[2 * n].startswith('(drivererror') else None
             f2 = mspec.parse_meaning(fl[2 * n + 1]) if not fl[2 * n + 1].startswith('(drivererror') else None
             w2 = sexp.parse(amb2[n]) if not amb2[n].startswith('(drivererror') else ['none']
+            und = None if ul[n].startswith('(drivererror') else [set(str(c) for c in r) for r in sexp.parse(ul[n])]
             cls = verdict[i]
             if cls is None and w2[0] == 'some':
                 cls = witness_class(sexp.parse(b['MIN'])[1], w2, bt.decode('latin-1'))
@@ -340,6 +363,23 @@ def run(ctx, res):
                     why = 'the || script offers %r which the | script does not offer' % sorted(set(x['reply']) - set(y['reply']))
                 elif y['reply'] and not x['reply']:
                     why = 'the | script offers %r, the || script offers nothing although no earlier branch has a candidate' % sorted(set(y['reply']))
+                elif und is not None:
+                    # second half of the property: what the | script offers and the || script does not must be undercut by an
+                    # earlier level (Spec/Undercut.v); also the specification itself is re-judged (C09_candidates_monotone_spec)
+                    if f1[k][0] is not None and f2[k][0] is not None:
+                        counters['spec_monotone_checked'] += 1
+                        if not (f2[k][0][0] <= (f1[k][0][0] | und[k])):
+                            why = ('specification-level monotonicity fails (theorem C09_candidates_monotone_spec contradicted by the '
+                                   'extracted functions): %r' % sorted(f2[k][0][0] - f1[k][0][0] - und[k]))
+                    missing = set(y['reply']) - set(x['reply'])
+                    counters['bar_candidates_judged'] += len(set(y['reply']))
+                    counters['bar_candidates_undercut'] += len(missing & und[k])
+                    if not why and missing - und[k]:
+                        if fa['greedy_shadow'] or fb_['greedy_shadow']:
+                            counters['undercut_skipped_greedy_shadow'] += 1
+                        else:
+                            why = ('the | script offers %r which the || script does not offer although no candidate of an earlier '
+                                   'level extends the typed prefix (undercut = %r)' % (sorted(missing - und[k]), sorted(und[k])))
                 if not why:
                     res.traces_validated += 1
                     continue
